@@ -7,7 +7,7 @@ import sys
 import coqfmt as cf
 
 RULE = ("cases = configurations (method in neighbor K=1 / neighbor K=2 / bruteforce / montecarlo with default truncation "
-        "and without) x (default, grouped, join-like provenance) x (KNN, SGD and random-splitter tree: estimators that "
+        "and without) x (default, grouped, join-like provenance, units NAMED BY STRINGS; datasets with exactly tied distances between differently labelled rows) x (KNN, SGD and random-splitter tree: estimators that "
         "draw from numpy's GLOBAL generator) x seeds incl. 0; every configuration is scored in 4 FRESH interpreter "
         "processes (PYTHONHASHSEED 0 / 1 / 4242 / random; different import orders; global numpy and Python generators "
         "seeded and consumed differently) and in-process twice: the BYTES of the score vectors must coincide; "
@@ -31,7 +31,12 @@ def gen(rng, tier):
              ("bruteforce", {}, "default", "rtree"), ("bruteforce", {}, "grouped", "dummy"),
              ("montecarlo", mc_trunc, "default", "rtree"), ("montecarlo", mc_trunc, "grouped", "rtree"),
              ("montecarlo", mc_trunc, "default", "dummy"), ("montecarlo", {"mc_iterations": 6}, "join", "rtree"),
-             ("montecarlo", {"mc_iterations": 5, "mc_truncation_steps": 0}, "default", "knn")]
+             ("montecarlo", {"mc_iterations": 5, "mc_truncation_steps": 0}, "default", "knn"),
+             # units named by strings (positions must not follow the hash order), and exactly tied distances between
+             # differently labelled rows (their order must not follow the seed)
+             ("neighbor", {}, "named", "knn"), ("bruteforce", {}, "named", "rtree"), ("montecarlo", {"mc_iterations": 6}, "named", "rtree"),
+             ("neighbor", {"ties": True}, "default", "knn"), ("neighbor", {"ties": True}, "grouped", "knn"),
+             ("neighbor", {"ties": True}, "named", "knn")]
     combos = list(fixed)
     if tier == "thorough":
         for method, kw in (("neighbor", {}), ("neighbor", {"nn_k": 2}), ("bruteforce", {}), ("montecarlo", mc_trunc),
@@ -45,7 +50,9 @@ def gen(rng, tier):
     seeds = [0, 7, 0, 1, 12345, 0, 7, 3, 0, 1, 7]
     for k, (method, kw, prov, model) in enumerate(combos):
         add = method == "neighbor" and (kw.get("nn_k") == 2 or prov == "join")
-        cases.append({"method": method, "kw": kw, "prov": prov, "model": model, "seed": seeds[k % len(seeds)],
+        ties = bool(kw.get("ties"))
+        kw = {a: b for a, b in kw.items() if a != "ties"}
+        cases.append({"method": method, "kw": kw, "prov": prov, "model": model, "seed": seeds[k % len(seeds)], "ties": ties,
                       "data_seed": rng.randrange(1 << 20), "classes": 2,
                       # the ADD path (K > 1 or join-like provenance) costs seconds per validation point: keep it small
                       "n": 4 if add else 6 if method == "bruteforce" else 7, "nv": 2 if add else 5})
@@ -66,6 +73,7 @@ def child(stage_env, cfg, variant, hashseed):
 def run_impl(c):
     from props import rtcommon
     cfg = {k: c[k] for k in ("method", "kw", "prov", "model", "seed", "data_seed", "n", "nv", "classes")}
+    cfg["ties"] = bool(c.get("ties"))
     base1 = rtcommon.score_hex(cfg)
     base2 = rtcommon.score_hex(cfg)
     kids = []
@@ -74,7 +82,7 @@ def run_impl(c):
     checks = {"in_process_repeat": base1 == base2,
               "processes_agree": all(k["hex"] == base1 for k in kids)}
     if c["method"] != "montecarlo":
-        other = [rtcommon.score_hex(dict(cfg, seed=s)) for s in (3, 99)]
+        other = [rtcommon.score_hex(dict(cfg, seed=s)) for s in (3, 99, 7, 12345)]
         checks["seed_free"] = all(h == base1 for h in other)
     else:
         rec = child(None, dict(cfg, record=True), 1, "7")
@@ -100,7 +108,7 @@ def distribution(cases, outs):
     from collections import Counter
     failed = Counter(k for o in outs if isinstance(o, dict) and "checks" in o for k, v in o["checks"].items() if not v)
     return {"methods": dict(Counter(c["method"] + json.dumps(c["kw"], sort_keys=True) for c in cases)),
-            "provenance": dict(Counter(c["prov"] for c in cases)), "models": dict(Counter(c["model"] for c in cases)),
+            "provenance": dict(Counter(c["prov"] for c in cases)), "tied_distance_cases": sum(1 for c in cases if c.get("ties")), "models": dict(Counter(c["model"] for c in cases)),
             "seeds": dict(Counter(c["seed"] for c in cases)), "fresh_processes_per_case": 4, "failed_checks": dict(failed),
             "exceptions": dict(Counter(o["exc"] for o in outs if isinstance(o, dict) and "exc" in o))}
 
